@@ -31,7 +31,7 @@ def judge(ctx, recs, mode):
     batch = [r for r in recs if not r["skip"]]
     if not batch:
         raise MachineryError("nothing compiled")
-    keep = ("cid", "comp", "Q", "raised", "qnames", "has_back_conversion", "declared", "qkind", "declared_exc", "pipeline")
+    keep = ("cid", "comp", "Q", "raised", "qnames", "has_back_conversion", "declared", "qkind", "declared_exc", "pipeline", "stage_rejected")
     slim = []
     for r in batch:
         x = {k: r.get(k) for k in keep}
@@ -75,6 +75,11 @@ def run(ctx):
     for r in recs:
         if r["skip"].startswith("HARNESS"):
             raise MachineryError(r.get("detail"))
+    # documented rejection: the trajectory-constraints remover reports problems it proves unsolvable
+    # by raising UPProblemDefinitionError("PROBLEM NOT SOLVABLE ...")
+    for r in recs:
+        if r["raised"] == "UPProblemDefinitionError" and "PROBLEM NOT SOLVABLE" in r.get("detail", ""):
+            r["skip"] = "documented-rejection"
     batch, fails = judge(ctx, recs, "C08")
     byid = {r["cid"]: r for r in batch}
     for _, cid, clause in fails:
